@@ -13,7 +13,10 @@ import systems  # noqa: E402
 
 sid = int(sys.argv[1]); npseed = int(sys.argv[2]); niter = int(sys.argv[3])
 rng = random.Random(sid)          # construction code is identical in every process
-if sid % 4 == 2:
+executor = None
+if sid % 8 == 6:
+    system, _ = systems.two_field_input_system(rng, name=f'h{sid}')
+elif sid % 4 == 2:
     system, _ = systems.field_input_system(rng, name=f'h{sid}')
 elif sid % 2 == 1:
     system, _ = systems.random_loop_system(rng, size=2 + (sid // 2) % 2, name=f'h{sid}', extra=True)
@@ -21,7 +24,12 @@ else:
     system, _ = systems.random_chain_system(rng, ncomp=2 + sid % 3, with_alpha=False, name=f'h{sid}')
 np.random.seed(npseed)
 xs = system.sample_inputs(5)
-system.fit(max_iter=niter, num_refine=20, max_tol=-1.0)
+if sid % 8 == 4:      # candidate evaluations through a real thread pool: the result may not depend on how the futures happen to be ordered
+    from concurrent.futures import ThreadPoolExecutor
+    with ThreadPoolExecutor(max_workers=3) as executor:
+        system.fit(max_iter=niter, num_refine=20, max_tol=-1.0, executor=executor)
+else:
+    system.fit(max_iter=niter, num_refine=20, max_tol=-1.0)
 xt = system.sample_inputs(4)
 pred = system.predict(xt)
 out = {
